@@ -209,7 +209,10 @@ pub fn main(args: &[String]) {
             _ => crashes += 1,
         }
     }
-    let out = json!({"cases": items.len(), "round_trips": trips, "crashes": crashes, "mismatches": bad.len(), "first": bad.iter().take(400).collect::<Vec<_>>()});
+    // failures with the signature of the recorded finding must not crowd out the others
+    let (kf, other): (Vec<Value>, Vec<Value>) = bad.into_iter().partition(|m| m["implicit_nd_pi"] == json!(true) && m["ok_when_made_explicit"] == json!(true));
+    let first: Vec<&Value> = other.iter().take(400).chain(kf.iter().take(40)).collect();
+    let out = json!({"cases": items.len(), "round_trips": trips, "crashes": crashes, "mismatches": kf.len() + other.len(), "mismatches_other": other.len(), "first": first});
     std::fs::write(&args[2], serde_json::to_string(&out).unwrap()).unwrap();
     std::fs::write(&args[3], events).unwrap();
 }
